@@ -56,6 +56,20 @@ type FuncV struct {
 }
 type TupleV []Val
 
+// ChanV: a channel; blocking operations are scheduling points (see sched.go)
+type ChanV struct {
+	buf    []chanItem
+	cap    int
+	closed bool
+	taken  int
+	sent   int
+	cvc    vclock
+}
+type chanItem struct {
+	v  Val
+	vc vclock
+}
+
 // OpaqueV stands for a value the engine does not model (float64 etc.).  It may be
 // stored, copied and passed; inspecting it ends the path as inconclusive, except
 // through the uninterpreted helpers that know its Key.
@@ -63,6 +77,7 @@ type OpaqueV struct {
 	Kind string
 	Key  string // identity of the uninterpreted application, e.g. parsefloat(<bytes>)
 	Src  Val
+	F    *float64 // concrete float value, if known
 }
 
 type mapIter struct {
@@ -250,7 +265,7 @@ func (x *Exec) zero(t types.Type) Val {
 	case *types.Signature:
 		return FuncV{}
 	case *types.Chan:
-		return OpaqueV{Kind: "chan"}
+		return (*ChanV)(nil)
 	case *types.Struct:
 		s := &StructV{F: make([]*Cell, u.NumFields())}
 		for i := range s.F {
@@ -445,6 +460,8 @@ func (x *Exec) valEq(a, b Val) BoolV {
 		if u == nil || v == nil {
 			return cbool(u == nil && v == nil)
 		}
+	case *ChanV:
+		return cbool(u == b.(*ChanV))
 	case FuncV:
 		v := b.(FuncV)
 		un := u.Fn == nil && u.Bi == nil && u.Native == nil
